@@ -21,6 +21,11 @@ such as a Chrono): a perf_counter / monotonic reading has an origin that
 changes with the process or the boot and cannot be compared across runs.
 GRAPH-WHOLE - Scheduler.schedule hands the backend the job's own full and
 hard graphs, not a copy from which nodes or edges were removed.
+ENQ-INPUTS - no argument bound to the decision before the atomic region is
+computed from the environment (no status / clock read hoisted out of it).
+WRITE-ALL - write_env rewrites the entry of every task that has an output
+directory: no skip decided on statuses, clocks or file times (a restored DONE
+task the master turns SKIPPED gets no new clock).
 Not decided: sequences of runs beyond these per-run obligations; clock
 monotonicity (time.time() is trusted).
 '''
@@ -32,10 +37,12 @@ def check(ctx):
     ctx.run(sched_rel.check_rel, {'REL-1', 'REL-2', 'REL-5'})
     ctx.run(sched_worker.check_pub)
     ctx.run(persist.check_merge_done)
+    ctx.run(persist.check_write_all)
     ctx.run(sched_rel.check_topo)
     ctx.run(sched_worker.check_clock_src)
     ctx.run(sched_rel.check_graph_whole)
     ctx.run(sched_rel.check_graph_rebound)
+    ctx.run(sched_rel.check_decision_inputs)
 
 
 from ..variants import sched as _v   # noqa: E402
